@@ -16,7 +16,8 @@ void draw_rans(vh::Rng& r, Draw& d, const std::vector<std::string>& names) {
     else if (n == "cb2") d.set(n, r.uni(0.3L, 1.0L));
     else if (n == "cv1") d.set(n, r.uni(3.0L, 10.0L));
     else if (n == "cw2") d.set(n, r.uni(0.1L, 0.6L));
-    else if (n == "cw3") d.set(n, r.uni(1.0L, 3.0L));
+    // one case in six: a wall-destruction constant decades above its calibration (f_w then leaves its plateau only for g ~ cw3: seeded C05-m11)
+    else if (n == "cw3") d.set(n, r.below(6) == 0 ? powl(10.0L, r.uni(0.5L, 4.0L)) : r.uni(1.0L, 3.0L));
     else if (n == "sigma") d.set(n, r.uni(0.4L, 1.0L));
     else if (n == "kappa") d.set(n, r.uni(0.3L, 0.5L));
     else if (n == "re_tau") d.set(n, r.uni(20.0L, 500.0L));
